@@ -4,6 +4,7 @@ CONSTANTS
   MaxEdges = 9
   FailKinds = {"err","panic"}
   AllowDangling = FALSE
+  MaxKind = 0
   MaxMark = 0
   MaxRerun = 0
   Runs = 2
